@@ -96,6 +96,8 @@ func opaqueEq(a, b *Opaque) Bool {
 		panic(inconclusive{"comparison of differently formatted opaque string pieces"})
 	}
 	switch a.Kind {
+	case "q":
+		return bytesEq(a.Str, b.Str)
 	case "d", "u":
 		if a.I.W != b.I.W {
 			panic(inconclusive{"opaque int pieces of different width"})
